@@ -32,6 +32,29 @@ Theorem row_aligned : forall ops d,
 Proof. exact row_aligned_l. Qed.
 Print Assumptions row_aligned.
 
+(* collections are nodes of the model (`colls`): a collection constrains no rows of its own; its length (the rows
+   of the first field in it, at any depth) is num_obs, or 0 - and it is 0 when it holds no field.  Creating an
+   empty collection and deleting the last field of one never touch num_obs, the rows or the other fields *)
+Theorem collections_in_histories : forall ops d,
+  Forall arg_good ops -> run all_off empty_dset ops = Some d ->
+  forall c, (coll_len d c = num_obs d \/ coll_len d c = 0) /\
+            ((forall pf, In pf (fields d) -> is_under c (fst pf) = false) -> coll_len d c = 0).
+Proof. exact collections_in_histories_l. Qed.
+Print Assumptions collections_in_histories.
+
+Theorem empty_collection_leaves_table : forall d p d',
+  step all_off d (AddColl p) = Some d' ->
+  num_obs d' = num_obs d /\ rowids d' = rowids d /\ store d' = store d /\ fields d' = fields d /\
+  existsb (String.eqb p) (colls d) = false.
+Proof. exact add_collection_spec_l. Qed.
+Print Assumptions empty_collection_leaves_table.
+
+Theorem del_keeps_collections : forall d p d',
+  step all_off d (Del p) = Some d' ->
+  num_obs d' = num_obs d /\ store d' = store d /\ colls d' = colls d /\ slookup p (fields d') = None.
+Proof. exact del_keeps_collections_l. Qed.
+Print Assumptions del_keeps_collections.
+
 (* the hypothesis of the two theorems is satisfiable: datasets built from operation lists are good *)
 Theorem built_datasets_are_good : forall ops, Forall arg_good ops -> Good (build ops).
 Proof. exact build_good. Qed.
@@ -172,6 +195,58 @@ Theorem shared_reference_once : forall d ix d',
 Proof. exact shared_reference_once_l. Qed.
 Print Assumptions shared_reference_once.
 
+(* ... and the walk does terminate on every state any operation list reaches: `step` only produces datasets
+   whose reference structure is well formed (`wf_dset`: unique identities, every field and reference names an
+   object of the store, `depth` - the longest reference chain below an object - is defined, i.e. no cycle), so
+   along every reference the depth strictly decreases and the walk needs no more fuel than the store has objects *)
+Theorem walk_terminates_on_reachable : forall ops d ix,
+  run all_off empty_dset ops = Some d -> exists d', subset_walk d ix = Some d'.
+Proof. exact walk_terminates_l. Qed.
+Print Assumptions walk_terminates_on_reachable.
+
+Theorem reachable_stores_are_acyclic : forall ops d,
+  run all_off empty_dset ops = Some d ->
+  wf_dset d = true /\
+  (forall o ob, In (o, ob) (store d) -> forall ar, In ar (orefs ob) ->
+     exists ob' k k', lookup (snd ar) (store d) = Some ob' /\
+        depth (S (length (store d))) (store d) o = Some k /\
+        depth (S (length (store d))) (store d) (snd ar) = Some k' /\ k' < k).
+Proof. exact reachable_wf_l. Qed.
+Print Assumptions reachable_stores_are_acyclic.
+
+(* extend / merge_with through the memo.  `ext_graph d o` is the situation before any row is moved (objects of self
+   - a paired object also gets the references only its partner has - and copies of the objects only other has);
+   `xrows a ob` is what insert() / append_empty / prepend_empty build for object a: rows ++ converted partner rows,
+   rows ++ fill, fill ++ rows (ext_graph_fill).  `extend_walk` walks the fields with one memo.  Whenever it
+   succeeds: fields name the memo images, the memo is a function and one-to-one, every object of the graph gets
+   exactly one new object with the rows built once and its references mapped through the memo.  (That the walk
+   and the pairing specification `extend` give the same table with the same sharing is evaluated in Coq for every
+   extend / merge_with of every correspondence history - verdict class 9 -, not proven.) *)
+Theorem shared_reference_once_extend : forall d o d',
+  extend_walk d o = Some d' ->
+  exists g xrows fl nx (memo : list (nat * nat)),
+    ext_graph d o = Some (g, xrows, fl, nx) /\
+    num_obs d' = num_obs d + num_obs o /\ rowids d' = rowids d ++ rowids o /\
+    Forall2 (fun pf qf => fst qf = fst pf /\ In (snd pf, snd qf) memo) fl (fields d') /\
+    (forall a n1 n2, In (a, n1) memo -> In (a, n2) memo -> n1 = n2) /\
+    (forall a1 a2 n, In (a1, n) memo -> In (a2, n) memo -> a1 = a2) /\
+    NoDup (map fst (store d')) /\
+    (forall a n, In (a, n) memo ->
+       exists ob rs, lookup a g = Some ob /\
+                     lookup n (store d') = Some (set_refs (xrows a ob) rs) /\
+                     Forall2 (fun ar r => fst r = fst ar /\ In (snd ar, snd r) memo) (orefs ob) rs).
+Proof. exact shared_reference_once_extend_l. Qed.
+Print Assumptions shared_reference_once_extend.
+
+Theorem extend_walk_fill : forall d o g xrows fl nx id ob,
+  ext_graph d o = Some (g, xrows, fl, nx) ->
+  find (fun ab => Nat.eqb (fst ab) id) (all_pairs d o) = None ->
+  orows (xrows id ob) =
+    if existsb (fun x => Nat.eqb (fst x) id) (store d)
+    then orows ob ++ fill_rows (num_obs o) ob else fill_rows (num_obs d) ob ++ orows ob.
+Proof. exact ext_graph_fill. Qed.
+Print Assumptions extend_walk_fill.
+
 (* the store-level reading used by `step`: a reference resolves to the same identity, rows selected once *)
 Theorem shared_reference_store_level : forall ix d o,
   lookup o (store (take_all ix d)) = option_map (take_obj ix) (lookup o (store d)) /\
@@ -212,6 +287,18 @@ Theorem c09_unstable_sort_refuted :
   w_numpy_perm <> stable_argsort dy_leb w_keys.
 Proof. exact unstable_sort_refuted. Qed.
 Print Assumptions c09_unstable_sort_refuted.
+
+(* non-vacuity of shared_reference_once_extend: the extend walk runs (self: sat, site.other = sat; other: site with
+   an unattached .other, plus a field only other has), agrees with the pairing specification and keeps the sharing *)
+Example extend_walk_runs :
+  let o := build [New 3 10%Z;
+                  Add "site" KPos false 1 None [PNum [Dy 1 0; Dy 1 0; Dy 1 0]; PNum [Dy 1 1; Dy 1 1; Dy 1 1]; PNum [Dy 3 0; Dy 3 0; Dy 3 0]]
+                      [("other", TNew KPos [PNum [Dy 5 0; Dy 5 0; Dy 5 0]; PNum [Dy 7 0; Dy 7 0; Dy 7 0]; PNum [Dy 9 0; Dy 9 0; Dy 9 0]])];
+                  Add "f" KFloat false 1 None [PNum [Dy 1 0]; PNum [Dy 1 1]; PNum [Dy 3 0]] []] in
+  walk_agrees w_sharing o = true /\
+  exists d, extend_walk w_sharing o = Some d /\ num_obs d = 5 /\ ref_is_field d "site" "other" "sat" = true /\
+            option_map (fun ob => length (orows ob)) (field_obj d "f") = Some 5.
+Proof. split; [vm_compute; reflexivity|]. eexists. vm_compute. repeat split. Qed.
 
 (* non-vacuity of shared_reference_once: the walk terminates and keeps site.other = sat *)
 Example walk_runs :
